@@ -132,7 +132,7 @@ func mergeLogging(c any, o any, p tree.Path) (any, error) {
 	// we override logging config if source and override have the same driver set, or none
 	d, ok1 := other["driver"]
 	o, ok2 := config["driver"]
-	if d == o || !ok1 || !ok2 {
+	if !ok1 || !ok2 || reflect.DeepEqual(d, o) {
 		return mergeMappings(config, other, p)
 	}
 	return other, nil
